@@ -126,18 +126,38 @@ def strip_lean_comments(src):
     return "".join(out)
 
 
-def forbidden_scan():
-    hits = []
-    for root, _, files in os.walk(LEAN):
-        if ".lake" in root or "/WIP" in root:
+def import_closure(modules):
+    """files of the given modules and of everything of this package they import, transitively"""
+    seen, todo = {}, list(modules)
+    while todo:
+        m = todo.pop()
+        if m in seen:
             continue
-        for fn in files:
-            if fn.endswith(".lean"):
-                p = os.path.join(root, fn)
-                src = strip_lean_comments(open(p).read())
-                for ln, line in enumerate(src.split("\n"), 1):
-                    if FORBIDDEN.search(line):
-                        hits.append(f"{os.path.relpath(p, LEAN)}:{ln}: {line.strip()}")
+        p = os.path.join(LEAN, m.replace(".", "/") + ".lean")
+        if not os.path.exists(p):
+            continue
+        seen[m] = p
+        for im in re.findall(r"^\s*import\s+((?:Iox2|Driver)[\w.]*)", open(p).read(), flags=re.M):
+            todo.append(im)
+    return seen
+
+
+def forbidden_scan(modules=None):
+    """no `sorry`, axiom, native_decide … in the property's modules and in anything they import
+    (the driver's closure included: the models the correspondence runs are the models the theorems are about)"""
+    hits = []
+    files = sorted(import_closure(list(modules or []) + ["Driver.Main"]).values()) if modules else None
+    if files is None:
+        files = []
+        for root, _, fs in os.walk(LEAN):
+            if ".lake" in root or "/WIP" in root:
+                continue
+            files += [os.path.join(root, fn) for fn in fs if fn.endswith(".lean")]
+    for p in files:
+        src = strip_lean_comments(open(p).read())
+        for ln, line in enumerate(src.split("\n"), 1):
+            if FORBIDDEN.search(line):
+                hits.append(f"{os.path.relpath(p, LEAN)}:{ln}: {line.strip()}")
     return hits
 
 
@@ -180,7 +200,7 @@ def prove(ctx, prop_module=None, leanchecker=None):
         ctx.proof_errors.append((",".join(modules), "\n".join(errs[:40]) or log[-3000:]))
         ctx.log(f"[lean] build of {modules} FAILED")
         return False
-    hits = forbidden_scan()
+    hits = forbidden_scan(modules)
     if hits:
         ctx.proof_errors.append(("forbidden-construct", "\n".join(hits[:20])))
         return False
